@@ -20,8 +20,16 @@ type producer struct {
 }
 
 func (h *H) producers() []producer {
+	return h.producersOf(h.rng.Bytes(1 + h.rng.Intn(80)))
+}
+
+// producersOfLen: one genuine message of every mode and version carrying l random bytes
+func (h *H) producersOfLen(l int) []producer {
+	return h.producersOf(h.rng.Bytes(l))
+}
+
+func (h *H) producersOf(msg []byte) []producer {
 	var out []producer
-	msg := h.rng.Bytes(1 + h.rng.Intn(80))
 	for _, v := range []string{"1.0", "2.0"} {
 		rsk, ssk := h.randBoxSk(), h.randBoxSk()
 		s := sealSpec{v: v, sender: ssk, rsk: [][]byte{rsk}, hide: []bool{false}}
